@@ -649,6 +649,16 @@ def run_poles(key):
             out = g.poles(A.copy(), ref_axes=ra, hkl=hkl)
             res["n"] += 1
             j = judge_poles(G, res, names, A, hn, ra, out)
+            # the same orientations in Fortran memory order / as a transposed view: same poles
+            for tag, Al in (("fortran", np.asfortranarray(A)), ("tview", np.ascontiguousarray(A.transpose(0, 2, 1)).transpose(0, 2, 1))):
+                _count(res, "poles_layout_irrelevant")
+                res["n"] += 1
+                try:
+                    o2 = g.poles(Al, ref_axes=ra, hkl=hkl)
+                    if not all(np.array_equal(np.asarray(x), np.asarray(y)) for x, y in zip(o2, out)):
+                        res["viol"].append({"clause": "poles_layout_irrelevant", "key": dict(key, layout=tag), "detail": {"max_abs_diff": float(max(np.abs(np.asarray(x, float) - np.asarray(y, float)).max() for x, y in zip(o2, out)))}})
+                except Exception as e:
+                    res["viol"].append({"clause": "poles_layout_irrelevant", "key": dict(key, layout=tag, exc=type(e).__name__), "detail": {"exception": repr(e)[:200]}})
             if j is not None:
                 obs_parts.append(j[0])
                 for i in range(len(A)):
